@@ -309,4 +309,261 @@ theorem impl_sem {R : RegexOracle} {cap : Nat} {start : String} {n : Node} {j : 
                 exact ⟨mn + k, by omega, repOf_add h3 hk⟩
           · simp at hr
 
+/-! ### well-formedness of the nodes that name helper nonterminals -/
+
+theorem implsOf_no_ctl (cap : Nat) (me n : Node) : NT.ctl n ∉ implsOf cap me := by
+  cases me with
+  | rep i k b mn mx => cases k <;> simp [implsOf]
+  | _ => simp [implsOf]
+
+mutual
+theorem subNTs_wf (cap : Nat) : ∀ (node : Node), nodeWf node = true →
+    ∀ n, NT.ctl n ∈ subNTs cap node → nodeWf n = true
+  | .term _, _, n, h => by simp [subNTs] at h
+  | .nt _ _ _, _, n, h => by simp [subNTs] at h
+  | .alt i ns, hw, n, h => by
+    simp only [subNTs, List.mem_cons] at h
+    rcases h with h | h
+    · have := NT.ctl.inj h
+      subst this
+      exact hw
+    · exact subNTsL_wf cap ns (by simpa only [nodeWf] using hw) n h
+  | .cat i ns, hw, n, h => by
+    simp only [subNTs, List.mem_cons] at h
+    rcases h with h | h
+    · have := NT.ctl.inj h
+      subst this
+      exact hw
+    · exact subNTsL_wf cap ns (by simpa only [nodeWf] using hw) n h
+  | .rep i k b mn mx, hw, n, h => by
+    simp only [subNTs, List.mem_cons, List.mem_append] at h
+    rcases h with h | h | h
+    · have := NT.ctl.inj h
+      subst this
+      exact hw
+    · exact absurd h (implsOf_no_ctl cap _ n)
+    · simp only [nodeWf, Bool.and_eq_true] at hw
+      exact subNTs_wf cap b hw.2 n h
+theorem subNTsL_wf (cap : Nat) : ∀ (ns : List Node), nodesWf ns = true →
+    ∀ n, NT.ctl n ∈ subNTsL cap ns → nodeWf n = true
+  | [], _, n, h => by simp [subNTsL] at h
+  | m :: ms, hw, n, h => by
+    simp only [subNTsL, List.mem_append] at h
+    simp only [nodesWf, Bool.and_eq_true] at hw
+    rcases h with h | h
+    · exact subNTs_wf cap m hw.1 n h
+    · exact subNTsL_wf cap ms hw.2 n h
+end
+
+theorem rule_wf {G : Grammar} (hwf : G.wf = true) {s : String} {body : Node}
+    (h : G.rule s = some body) : nodeWf body = true := by
+  unfold Grammar.rule at h
+  split at h
+  · rename_i p hp
+    cases h
+    have hm := List.mem_of_find?_eq_some hp
+    unfold Grammar.wf at hwf
+    rw [List.all_eq_true] at hwf
+    exact hwf p hm
+  · cases h
+
+theorem ctl_wf {G : Grammar} {cap : Nat} (hwf : G.wf = true) {n : Node} {rhs : List ESym}
+    (h : (NT.ctl n, rhs) ∈ compile G cap) : nodeWf n = true := by
+  unfold compile at h
+  rw [List.mem_flatMap] at h
+  obtain ⟨y, hy, hm⟩ := h
+  rw [List.mem_map] at hm
+  obtain ⟨r, _, he⟩ := hm
+  cases he
+  unfold allNTs at hy
+  rw [List.mem_flatMap] at hy
+  obtain ⟨p, hp, hm⟩ := hy
+  simp only [List.mem_cons, reduceCtorEq, false_or] at hm
+  unfold Grammar.wf at hwf
+  rw [List.all_eq_true] at hwf
+  exact subNTs_wf cap p.2 (hwf p hp) n hm
+
+/-! ### the main induction -/
+
+/-- `rhs` is a suffix of a right-hand side of the table -/
+def InTable (G : Grammar) (cap : Nat) (start : String) (rhs : List ESym) : Prop :=
+  ∃ x pre, (x, pre ++ rhs) ∈ tableOf G cap start
+
+theorem inTable_rule {G : Grammar} {cap : Nat} {start : String} {x : NT} {rhs : List ESym}
+    (h : (x, rhs) ∈ tableOf G cap start) : InTable G cap start rhs := ⟨x, [], by simpa using h⟩
+
+theorem inTable_tail {G : Grammar} {cap : Nat} {start : String} {s : ESym} {ss : List ESym}
+    (h : InTable G cap start (s :: ss)) : InTable G cap start ss := by
+  obtain ⟨x, pre, hm⟩ := h
+  exact ⟨x, pre ++ [s], by simpa using hm⟩
+
+theorem table_mem_cases {G : Grammar} {cap : Nat} {start : String} {x : NT} {rhs : List ESym}
+    (h : (x, rhs) ∈ tableOf G cap start) :
+    (x = .start ∧ rhs = [ESym.plain (.user start)]) ∨ (x, rhs) ∈ compile G cap := by
+  unfold tableOf at h
+  rcases List.mem_cons.mp h with h | h
+  · cases h; exact Or.inl ⟨rfl, rfl⟩
+  · exact Or.inr h
+
+theorem inTable_term {G : Grammar} {cap : Nat} {start : String} {t : Term} {ss : List ESym}
+    (h : InTable G cap start (.t t :: ss)) : ∃ x full, (x, full) ∈ compile G cap ∧ ESym.t t ∈ full := by
+  obtain ⟨x, pre, hm⟩ := h
+  rcases table_mem_cases hm with ⟨_, he⟩ | hc
+  · have : ESym.t t ∈ pre ++ ESym.t t :: ss := by simp
+    rw [he] at this
+    simp [ESym.plain] at this
+  · exact ⟨x, _, hc, by simp⟩
+
+theorem combine {G : Grammar} {R : RegexOracle} {cap : Nat} {start : String} {A B : List Tree}
+    {t1 : List Tok} {s : ESym} {ss : List ESym}
+    (hA : ValidL G R A) (htA : toksOf A = some t1) (hs : SemSym R cap start s t1)
+    (hB : ValidL G R B ∧ ∃ toks, toksOf B = some toks ∧ SemL R cap start ss toks) :
+    ValidL G R (A ++ B) ∧ ∃ toks, toksOf (A ++ B) = some toks ∧ SemL R cap start (s :: ss) toks := by
+  obtain ⟨hB, t2, htB, hss⟩ := hB
+  refine ⟨validL_append hA hB, t1 ++ t2, toksOf_append htA htB, ?_⟩
+  simp only [SemL]
+  exact ⟨t1, t2, rfl, hs, hss⟩
+
+/-- **helper collapsing preserves derivations**: what the chart derives over the helper rules
+    collapses to a list of valid derivation trees of the IR grammar whose top-level tokens spell out
+    the symbols -/
+theorem collapse_sound (G : Grammar) (cap : Nat) (R : RegexOracle) (scan : Scan) (start : String)
+    (hwf : G.wf = true) (hscan : ScanOk G cap R scan)
+    {rhs : List ESym} {ks : List PT} {i j : Nat}
+    (hsub : InTable G cap start rhs)
+    (h : DerL (tableOf G cap start) scan rhs ks i j) :
+    ValidL G R (collapseL ks) ∧
+      ∃ toks, toksOf (collapseL ks) = some toks ∧ SemL R cap start rhs toks := by
+  induction h with
+  | nil i => exact ⟨by simp only [collapseL, ValidL], [], by simp only [collapseL, toksOf], by simp only [SemL]⟩
+  | @term t i m j l ss ks hs hd ih =>
+    have hB := ih (inTable_tail hsub)
+    obtain ⟨x, full, hc, ht⟩ := inTable_term hsub
+    have hok := hscan x full t hc ht i m l hs
+    simp only [collapseL, collapse]
+    exact combine (A := [Tree.leaf l]) (t1 := [.leaf l])
+      (by simp only [ValidL, Tree.leaf, Valid, and_self]) (by simp [toksOf, tokOf, Tree.leaf])
+      ⟨.leaf l, rfl, hok⟩ hB
+  | @expl x a r rhs' kids ss ks i m j hx hr h1 h2 ih1 ih2 =>
+    have hB := ih2 (inTable_tail hsub)
+    obtain ⟨hV, toks1, ht1, hS⟩ := ih1 (inTable_rule hr)
+    rcases table_mem_cases hr with ⟨rfl, _⟩ | hc
+    · simp [NT.explicit] at hx
+    · have hro := mem_compile hc
+      cases x with
+      | start => simp [NT.explicit] at hx
+      | impl n q => simp [NT.explicit] at hx
+      | user s =>
+        simp only [rulesOf] at hro
+        cases hb : G.rule s with
+        | none => simp [hb] at hro
+        | some body =>
+          simp only [hb, List.mem_singleton] at hro
+          subst hro
+          have hm := semSym_symOf.mp (semL_single.mp hS)
+          simp only [collapseL, collapse, ntName]
+          refine combine (A := [Tree.mk (.nt s) a r (collapseL kids)]) (t1 := [.ntk s]) ?_
+            (by simp [toksOf, tokOf]) (by simp only [SemSym]) hB
+          simp only [ValidL, Valid, and_true]
+          exact ⟨⟨body, toks1, hb, ht1, hm⟩, hV⟩
+      | ctl n =>
+        simp only [rulesOf] at hro
+        have hm := ctl_sem (ctl_wf hwf hc) hro hS
+        simp only [collapseL, collapse]
+        exact combine hV ht1 (by simpa only [SemSym] using hm) hB
+  | @impl x a r rhs' k1 ss k2 i m j hx hr h1 h2 ih1 ih2 =>
+    have hB := ih2 (inTable_tail hsub)
+    obtain ⟨hV, toks1, ht1, hS⟩ := ih1 (inTable_rule hr)
+    rw [collapseL_append]
+    refine combine hV ht1 ?_ hB
+    rcases table_mem_cases hr with ⟨rfl, rfl⟩ | hc
+    · have := semL_single.mp hS
+      simpa only [SemSym, ESym.plain] using this
+    · have hro := mem_compile hc
+      cases x with
+      | user s => simp [NT.explicit] at hx
+      | ctl n => simp [NT.explicit] at hx
+      | start => simp [rulesOf] at hro
+      | impl n q =>
+        simp only [rulesOf] at hro
+        simpa only [SemSym] using impl_sem hro hS
+
+/-- the corollary that is used: a yielded tree is a valid derivation -/
+theorem collapse_top_valid (G : Grammar) (cap : Nat) (R : RegexOracle) (scan : Scan) (start : String)
+    (hwf : G.wf = true) (hscan : ScanOk G cap R scan) {rhs : List ESym} {kids : List PT} {i j : Nat}
+    (hr : (NT.user start, rhs) ∈ compile G cap)
+    (h : DerL (tableOf G cap start) scan rhs kids i j) :
+    Valid G R (Tree.mk (.nt start) none none (collapseL kids)) := by
+  have hr' : (NT.user start, rhs) ∈ tableOf G cap start := List.mem_cons_of_mem _ hr
+  obtain ⟨hV, toks, ht, hS⟩ := collapse_sound G cap R scan start hwf hscan (inTable_rule hr') h
+  have hro := mem_compile hr
+  simp only [rulesOf] at hro
+  cases hb : G.rule start with
+  | none => simp [hb] at hro
+  | some body =>
+    simp only [hb, List.mem_singleton] at hro
+    subst hro
+    simp only [Valid]
+    exact ⟨⟨body, toks, hb, ht, semSym_symOf.mp (semL_single.mp hS)⟩, hV⟩
+
+/-! ### the leaves of the collapsed trees tile the input -/
+
+theorem leavesL_append (a b : List Tree) :
+    Tree.leavesL (a ++ b) = Tree.leavesL a ++ Tree.leavesL b := by
+  induction a with
+  | nil => simp [Tree.leavesL]
+  | cons x xs ih => simp [Tree.leavesL, ih]
+
+theorem leavesL_collapse_node (x : NT) (a r : Option String) (kids : List PT) :
+    Tree.leavesL (collapse (.node x a r kids)) = Tree.leavesL (collapseL kids) := by
+  cases x <;> simp [collapse, Tree.leavesL, Tree.leaves]
+
+theorem tilesLoose_append {inp : Input} {ls ls' : List Leaf} {i m j : Nat}
+    (h1 : TilesLoose inp ls i m) (h2 : TilesLoose inp ls' m j) : TilesLoose inp (ls ++ ls') i j := by
+  induction h1 with
+  | nil i => simpa using h2
+  | cons hl _ ih => exact TilesLoose.cons hl (ih h2)
+
+theorem tiles_append {inp : Input} {ls ls' : List Leaf} {i m j : Nat}
+    (h1 : Tiles inp ls i m) (h2 : Tiles inp ls' m j) : Tiles inp (ls ++ ls') i j := by
+  induction h1 with
+  | nil i => simpa using h2
+  | cons hl ha _ ih => exact Tiles.cons hl ha (ih h2)
+
+theorem collapse_tiles_loose (rules : List CRule) (inp : Input) (scan : Scan)
+    (hscan : ∀ t i m l, scan t i = some (m, l) → m = i + l.width ∧ LeafAt inp i l)
+    {rhs : List ESym} {ks : List PT} {i j : Nat} (h : DerL rules scan rhs ks i j) :
+    TilesLoose inp (Tree.leavesL (collapseL ks)) i j := by
+  induction h with
+  | nil i => simpa only [collapseL, Tree.leavesL] using TilesLoose.nil i
+  | @term t i m j l ss ks hs hd ih =>
+    obtain ⟨rfl, hl⟩ := hscan t i m l hs
+    simp only [collapseL, collapse, Tree.leavesL, Tree.leaf, Tree.leaves, List.singleton_append]
+    exact TilesLoose.cons hl ih
+  | @expl x a r rhs' kids ss ks i m j hx hr h1 h2 ih1 ih2 =>
+    simp only [collapseL, leavesL_append, leavesL_collapse_node]
+    exact tilesLoose_append ih1 ih2
+  | @impl x a r rhs' k1 ss k2 i m j hx hr h1 h2 ih1 ih2 =>
+    rw [collapseL_append, leavesL_append]
+    exact tilesLoose_append ih1 ih2
+
+theorem collapse_tiles (rules : List CRule) (inp : Input) (scan : Scan)
+    (hscan : ∀ t i m l, scan t i = some (m, l) →
+      m = i + l.width ∧ LeafAt inp i l ∧ (l.isBit = false → i % 8 = 0))
+    {rhs : List ESym} {ks : List PT} {i j : Nat} (h : DerL rules scan rhs ks i j) :
+    Tiles inp (Tree.leavesL (collapseL ks)) i j := by
+  induction h with
+  | nil i => simpa only [collapseL, Tree.leavesL] using Tiles.nil i
+  | @term t i m j l ss ks hs hd ih =>
+    obtain ⟨rfl, hl, ha⟩ := hscan t i m l hs
+    simp only [collapseL, collapse, Tree.leavesL, Tree.leaf, Tree.leaves, List.singleton_append]
+    exact Tiles.cons hl ha ih
+  | @expl x a r rhs' kids ss ks i m j hx hr h1 h2 ih1 ih2 =>
+    simp only [collapseL, leavesL_append, leavesL_collapse_node]
+    exact tiles_append ih1 ih2
+  | @impl x a r rhs' k1 ss k2 i m j hx hr h1 h2 ih1 ih2 =>
+    rw [collapseL_append, leavesL_append]
+    exact tiles_append ih1 ih2
+
+
 end FV.Earley
